@@ -314,7 +314,7 @@ fn gen_real_text(rng: &mut Rng) -> String {
 impl C16 {
     fn gen_text(&self, rng: &mut Rng) -> String {
         let mut s = String::new();
-        let n = 1 + rng.below(14);
+        let n = 1 + rng.below(if small() { 4 } else { 14 });
         for _ in 0..n {
             match rng.below(20) {
                 0 | 1 | 2 => s.push_str(&gen_int_text(rng)),
